@@ -25,13 +25,13 @@ ENGINES = {
 ENGINES["range"] = dict(
     drv="range", starts=("rsetup",),
     trivial=r"^(rsetup .* => ok$)",
-    branches=["rsetup.ok", "rsetup.err", "rreq.new", "rreq.known", "rreq.exhausted", "rreq.maclen-other", "rrestart.ok", "rreq.key-rewritten-by-affinity"],
+    branches=["rsetup.ok", "rsetup.err", "rreq.new", "rreq.known", "rreq.exhausted", "rreq.maclen-other", "rrestart.ok", "rreq.key-rewritten-by-affinity", "range.time-passes"],
 )
 ENGINES["prefix"] = dict(
     drv="prefix", starts=("psetup",),
     trivial=r"^(psetup .* ok$)",
     branches=["psetup.ok", "psetup.err", "pmsg.reply", "pmsg.drop", "pmsg.hintless", "pmsg.hint-len0", "pmsg.hint-len>128",
-              "pmsg.multi-hint", "pmsg.multi-iapd", "pmsg.no-client-id", "pmsg.noprefixavail", "pmsg.new-lease", "pmsg.known-lease"],
+              "pmsg.multi-hint", "pmsg.multi-iapd", "pmsg.no-client-id", "pmsg.noprefixavail", "pmsg.new-lease", "pmsg.known-lease", "prefix.time-passes"],
 )
 
 ENGINES["dispatch4"] = dict(
@@ -293,8 +293,8 @@ RULES = {
     "ipcalc": "128-bit operands biased to carry/borrow patterns, every p in 0..128, n near 2^k / 2^unit / 2^64-1; one case per line; trivial = Offset giving 0 or AddPrefixes with n=0",
     "alloc6": "histories (one pool each) of Allocate with hints {none, length-only, in-pool free/taken anywhere inside the block, held, freed earlier, outside below/above, IPv4 forms, odd masks} and Free of {outstanding, sub-prefix, freed before, any block, k blocks below the base, above the end, random}; pools on both sides of the 64-bit boundary; trivial = only hint-less successful allocations",
     "alloc4": "histories (one range each; sizes 1,2,3,63,64,65,127..200, ranges ending at 255.255.255.255 / starting at 0.0.0.0, the full range judged by the monitors alone) of Allocate with hints {none, in range (4- and 16-byte forms), freed earlier, outside, IPv6} and Free likewise; trivial = only hint-less successful allocations",
-    "range": "histories (one sqlite file each) of DISCOVER/REQUEST from hardware addresses of length 0..16 (mostly 6) with odd hostnames, restarts on a copy of the database with probes (in some histories after every request); trivial = set-up only",
-    "prefix": "histories (one pool each) of SOLICITs from 1..4 clients, 0..3 IA_PDs, 0..3 hints each from {::/0, length-only, own prefix, another client's, in-pool block (host bits, longer), out of pool, length>128, IPv4-mapped}, direct and relayed, through the wire; trivial = set-up only",
+    "range": "histories (one sqlite file each) of DISCOVER/REQUEST from hardware addresses of length 0..16 (mostly 6) with odd hostnames, restarts on a copy of the database with probes (in some histories after every request), time passing (leases aged by 1 s, half a lease, a lease, two leases through the ageing hook); trivial = set-up only",
+    "prefix": "histories (one pool each) of SOLICITs from 1..4 clients, 0..3 IA_PDs, 0..3 hints each from {::/0, length-only, own prefix, another client's, in-pool block (host bits, longer), out of pool, length>128, IPv4-mapped}, direct and relayed, through the wire; time passing (leases aged by half an hour, just over the hour they last, a day); trivial = set-up only",
     "file": "lease files from a line grammar (every MAC/IP spelling, comments, blank lines, duplicates, one of each malformation, CRLF, missing final newline), v4/v6/dual-stack set-ups in both orders, rewrites under autorefresh, queries; trivial = only unlisted clients",
     "dispatch4": "datagrams built from the library types then mutated (truncation, bit flips, garbage, trailing bytes): all opcodes, message types 0..255/absent, giaddr/ciaddr kinds, broadcast flag, options 82/61; scripted handler chains of 0..5; bound/unbound listeners; trivial = unparsable datagram",
     "dispatch6": "datagrams: all message types, client-id/rapid-commit presence, relay nesting 0..4 (thorough 0..32) with Relay-Reply layers and missing relay-message options, mutated; link-local/global sources; scripted chains; trivial = unparsable datagram",
